@@ -3,16 +3,16 @@ CONSTANTS
   AckMode = "shaped"
   ThrMode = "fixed"
   EmptyMode = "fixed"
-  CfgSet <- CoreCfgs
-  SameCfg = FALSE
+  CfgSet <- TinyCfg
+  SameCfg = TRUE
   Openers = {"A"}
   MaxOpens = 1
   Ids = {1}
   Hosts = {"h0"}
-  MaxWrites = 3
-  Lens = {1, 2}
-  ReadMax = {1, 4}
-  Closers = {}
+  MaxWrites = 1
+  Lens = {1}
+  ReadMax = {4}
+  Closers = {"A", "B"}
   MuxDroppers = {}
   DgSenders = {}
   MaxDgrams = 0
@@ -21,7 +21,7 @@ CONSTANTS
   Faults = {}
   AdvMsgs = {}
   MaxAdv = 0
-  MaxHandles = 2
+  MaxHandles = 1
   MaxCtr = 1
 VIEW View
 CONSTRAINT Bound
